@@ -671,3 +671,28 @@ beltdef!(misc_beltdef_w1, P16w1);
 beltdef!(misc_beltdef_w2, P16w2);
 #[cfg(not(kani))]
 beltdef!(misc_beltdef_w3, P16w3);
+
+// ---------------------------------------------------------------- C17 on the public byte-level types (the dependency's buffering
+// wrapper around the repo cores): Debug text after the same history under two different keys / IVs
+#[cfg(not(kani))]
+macro_rules! debug_wrapper {
+    ($h:ident, $cipher:ident, $b:expr, $ty:ty, $core:ty) => {
+        pub fn $h() {
+            let c1 = $cipher { k: fill() }; let c2 = $cipher { k: fill() };
+            let iv1: [u8; $b] = fill(); let iv2: [u8; $b] = fill();
+            let mut a = <$ty>::from_core(<$core>::inner_iv_init(c1, &iv1.into()));
+            let mut b = <$ty>::from_core(<$core>::inner_iv_init(c2, &iv2.into()));
+            let n = (nd::any::<u8>() as usize) % (2 * $b + 1);
+            let mut d1 = [0u8; 2 * $b]; let mut d2 = [0u8; 2 * $b];
+            a.apply_keystream(&mut d1[..n]); b.apply_keystream(&mut d2[..n]);
+            let sa = format!("{:?}", a); let sb = format!("{:?}", b);
+            assert!(sa == sb, "Debug text of a byte-level stream cipher depends on key / IV / position: it prints the unused keystream bytes of the current block");
+        }
+    };
+}
+#[cfg(not(kani))]
+debug_wrapper!(misc_wdebug_ctr32be, P4w2, 4, ctr::Ctr32BE<P4w2>, ctr::CtrCore<P4w2, ctr::flavors::Ctr32BE>);
+#[cfg(not(kani))]
+debug_wrapper!(misc_wdebug_ofb, P4w2, 4, ofb::Ofb<P4w2>, ofb::OfbCore<P4w2>);
+#[cfg(not(kani))]
+debug_wrapper!(misc_wdebug_belt, P16w2, 16, belt_ctr::BeltCtr<P16w2>, belt_ctr::BeltCtrCore<P16w2>);
